@@ -548,8 +548,15 @@ func (m *MonC09Enum) Finish(w *World) {
 		}
 	}
 	if m.Pairs {
+		// every pair on short histories; on longer ones a seeded sample of about 250 pairs (a run must end
+		// well inside the worker's watchdog also on a loaded machine)
+		total := (n - 2) * (n - 1) / 2
+		r := rand.New(rand.NewSource(w.Sc.Seed ^ 0x9a125))
 		for i := 0; i < n-2; i++ {
 			for j := i + 1; j < n-1; j++ {
+				if total > 250 && r.Intn(total) >= 250 {
+					continue
+				}
 				if !m.runFrom(w, i, j) {
 					return
 				}
